@@ -28,6 +28,19 @@ func (fx *fnExec) execInstr(in ssa.Instruction) {
 		if ad.Cell == nil && fx.ctr != nil && len(fx.ctr.Hooks) > 0 {
 			// value overwritten by a store into the heap: `previous` in store hooks
 			fx.prevStored = fx.load(ad)
+		} else if ad.Cell != nil && fx.ctr != nil && len(fx.ctr.Hooks) > 0 {
+			// a local variable being overwritten: its current value, when it has one
+			func() {
+				defer func() {
+					if r := recover(); r != nil {
+						if _, isVC := r.(vcError); !isVC {
+							panic(r)
+						}
+						fx.prevStored = nil
+					}
+				}()
+				fx.prevStored = fx.load(ad)
+			}()
 		}
 		fx.store(ad, v)
 		fx.runStoreHooks(x, ad, where)
